@@ -361,6 +361,11 @@ func (fc *FuncCtx) evalSpec(st *State, e *SExpr, sc *specCtx) Val {
 			return Val{T: t, Typ: l.Typ}
 		case *types.Func:
 			b := base
+			if len(index) > 1 {
+				// promoted method: the receiver is the embedded field (same as in code)
+				l := fc.specFieldLoc(st, base, index[:len(index)-1], sc)
+				b = Val{T: fc.readLoc(st, l), Typ: l.Typ}
+			}
 			return Val{FnObj: o, Recv: &b, Typ: o.Type()}
 		}
 		panic(engineError{fmt.Sprintf("spec: no field or method %s on %v", e.Name, base.Typ)})
@@ -430,7 +435,9 @@ func (fc *FuncCtx) evalSpec(st *State, e *SExpr, sc *specCtx) Val {
 		}
 		// facts generated inside the quantifier body must not leak (they mention bound vars)
 		inner := st.clone()
+		fc.noName++
 		body := fc.evalSpecBool(inner, e.Args[0], n)
+		fc.noName--
 		// collect leaked facts as extra antecedents/conjuncts
 		var extra []*Term
 		for p := inner.pc; p != st.pc; p = p.parent {
@@ -443,12 +450,20 @@ func (fc *FuncCtx) evalSpec(st *State, e *SExpr, sc *specCtx) Val {
 		}
 		g := And(guards...)
 		ex := And(extra...)
+		// facts produced while evaluating the body (definitions, type facts, assumed contract consequences of
+		// pure callees) hold for every value of the bound variables: they become a separate universally
+		// quantified assumption instead of an antecedent, so that they can be used in both polarities
+		if !ex.IsTrue() {
+			fq := Forall(vars, Implies(g, ex))
+			autoPattern(fq)
+			st.assume(fq)
+		}
 		if e.Name == "forall" {
-			q := Forall(vars, Implies(And(g, ex), body))
+			q := Forall(vars, Implies(g, body))
 			autoPattern(q)
 			return Val{T: q, Typ: types.Typ[types.Bool]}
 		}
-		return Val{T: Exists(vars, And(g, ex, body)), Typ: types.Typ[types.Bool]}
+		return Val{T: Exists(vars, And(g, body)), Typ: types.Typ[types.Bool]}
 	case "call":
 		return fc.evalSpecCall(st, e, sc)
 	}
@@ -712,7 +727,8 @@ func (fc *FuncCtx) specBuiltin(st *State, name string, argEs []*SExpr, sc *specC
 		return Val{T: fc.bytesEq(a.T, b.T), Typ: tBool}, true
 	case "culprit":
 		a, b := arg(0), arg(1)
-		return Val{T: App("culprit", SBool, a.T, fc.coerceTerm(b.T, SV)), Typ: tBool}, true
+		// the nil error blames nobody
+		return Val{T: And(Not(Eq(a.T, Const("nil", SV))), App("culprit", SBool, a.T, fc.coerceTerm(b.T, SV))), Typ: tBool}, true
 	case "errIs":
 		a, b := arg(0), arg(1)
 		return Val{T: App("err$is", SBool, a.T, b.T), Typ: tBool}, true
@@ -740,6 +756,10 @@ func (fc *FuncCtx) specBuiltin(st *State, name string, argEs []*SExpr, sc *specC
 	case "bit":
 		a, k := arg(0), arg(1)
 		return Val{T: mk("bit", SInt, a.T, k.T), Typ: tInt}, true
+	case "allocated":
+		// allocated(x): the object x exists in the current state (it is not a later allocation)
+		a := arg(0)
+		return Val{T: Select(fc.allocArr(st), fc.coerceTerm(a.T, SV)), Typ: tBool}, true
 	case "res":
 		// res(call, i): i-th result of a multi-result call
 		a := arg(0)
